@@ -83,7 +83,14 @@ type knownFile struct {
 	Fixed []string `json:"fixed"`
 }
 
-const verifDir = "/verif"
+// verifDir is where the driver was started (the check script cds to its own directory: /verif, or a snapshot of it)
+var verifDir = func() string {
+	d, err := os.Getwd()
+	if err != nil {
+		return "/verif"
+	}
+	return d
+}()
 const goBin = "go1.26.8"
 
 var scratch string
